@@ -398,8 +398,33 @@ func runE2E(c *harness.Ctx) harness.Result {
 			}
 		}
 	}
-	// web views: two requests to one server and one to a second server
+	// the same profile arriving from a remote source (pprof then also saves a copy): saved twice
+	// with -proto, the two results are the same bytes (nothing of the moment of retrieval is in them)
 	drv.IsolateEnv(c.Tmp)
+	var saved [2][]byte
+	for k := range saved {
+		sesn := &drv.Session{Flags: &drv.Flags{Bools: map[string]bool{"proto": true, "addresses": true}, Strs: map[string]string{"output": "out", "symbolize": "none"}, Args: []string{"http://host.test/pprof/profile"}},
+			Fetch: &drv.MapFetcher{Profiles: map[string]*profile.Profile{"http://host.test/pprof/profile": p}, Remote: true}}
+		if rr := sesn.Run(); rr.Panic == "" && rr.Err == nil && sesn.Writer.Files["out"] != nil {
+			saved[k] = sesn.Writer.Files["out"].Bytes()
+		}
+		c.Stat("remote_renderings", 1)
+		if k == 0 {
+			time.Sleep(2 * time.Millisecond)
+		}
+	}
+	if saved[0] != nil && saved[1] != nil && !bytes.Equal(saved[0], saved[1]) {
+		a, _ := profile.ParseData(saved[0])
+		b, _ := profile.ParseData(saved[1])
+		da, db := "", ""
+		if a != nil && b != nil {
+			da, db = a.String(), b.String()
+		}
+		res.Verdict = harness.Violated
+		res.Detail = fmt.Sprintf("pprof -proto of a remotely fetched profile run twice gives different bytes\n%s", firstDiff([]byte(da), []byte(db)))
+		return res
+	}
+	// web views: two requests to one server and one to a second server
 	var pages [3]map[string]string
 	urls := []string{"/top", "/flamegraph", "/top?g=lines&sort=cum", "/peek?f=.", "/source?f=f"}
 	for k := 0; k < 2; k++ {
